@@ -38,4 +38,15 @@ RoundTrip(firstOdd) ==
           /\ r.L % P17 = second.lon \/ (r.L + r.ni * P17) % P17 = second.lon   \* re-encodes to the second report's longitude
           /\ AbsC(r.latU) <= C \div 4 /\ 2 * r.L < r.ni * P17 /\ 2 * r.L >= -(r.ni * P17)
 RoundTripOK == RoundTrip(0) /\ RoundTrip(1)
+
+\* spec -> impl: the two reports of every state, in both orders, as replay vectors for the real pairing function
+Reports(firstOdd) ==
+  LET u2 == Clamp(u + d)
+      sOdd == 1 - firstOdd
+      n1 == LET nl == NL(RLat(u, firstOdd)) IN IF nl - firstOdd < 1 THEN 1 ELSE nl - firstOdd
+      n2 == LET nl == NL(RLat(u2, sOdd)) IN IF nl - sOdd < 1 THEN 1 ELSE nl - sOdd
+      z == CASE zf = 0 -> 0 [] zf = 1 -> n1 \div 2 [] OTHER -> n1 - 1
+      lam == z * P17 + xf
+  IN <<firstOdd, EncLat(u, firstOdd), lam % P17, EncLat(u2, sOdd), EncLonIn(lam, n1, n2)>>
+Replay == PrintT(<<"REPLAY", Reports(0), Reports(1)>>)
 =============================================================================
